@@ -30,8 +30,14 @@ QUICK = [
     _k('scaled_fixed_storage_base_window_only', mode='fixed', base='storage', T=4, win=(1, 3), wrap_win=None),
     _k('scaled_free_storage', mode='free', base='storage', T=3),
     _k('scaled_free_contract_mustrun', mode='free', base='mustrun', T=2),
+    # normalisation below one: the variable bounds of the scaled asset must not be tighter than the scaled capacities
+    _k('scaled_fixed_storage_norm_below_one', mode='fixed', base='storage', T=2, norm=0.5),
+    _k('scaled_fixed_contract_norm_below_one', mode='fixed', base='contract', T=2, norm=0.25),
+    _k('scaled_free_storage_norm_below_one', mode='free', base='storage', T=2, norm=0.5),
     _k('structured', mode='struct', T=2),
     _k('structured_windows', mode='struct', T=3, inner_win=(0, 2), outer_win=(1, 3)),
+    _k('structured_end_only_windows', mode='struct', T=4, inner_win=(None, 3), outer_win=(None, 2)),
+    _k('structured_start_only_windows', mode='struct', T=4, inner_win=(1, None), outer_win=(2, None)),
 ]
 THOROUGH = QUICK + [
     _k('scaled_fixed_storage_day_unit', mode='fixed', base='storage', T=3, unit='d', freq='d'),
@@ -99,13 +105,13 @@ def mk_base(D, base, T, tg, nA, nB, f, concrete, win, name):
     raise KeyError(base)
 
 
-def build_scaled(D, mode, base, T, win=None, unit='h', freq='h', sigma=None, wrap_win='same'):
+def build_scaled(D, mode, base, T, win=None, unit='h', freq='h', sigma=None, wrap_win='same', norm=2.0):
     """returns (pf_scaled, pf_base_scaled_quantities, tg, prices, factor term, fix cost rate, scale value/sigma)"""
     eao = lift.import_eao()
     tg = shapes.grid(T, freq, unit)
     nA, nB = shapes.nodes('A', 'B')
     prices = shapes.prices_for(D, ['p', 'q', 'r'], T)
-    norm = D.coef('norm', 2.0, lo_strict=0)
+    norm = D.coef('norm', norm, lo_strict=0)
     fixc = D('fixc', lo=0)
     if mode == 'fixed':
         s = D.coef('scale', 1.5, lo=0)
@@ -149,12 +155,12 @@ def run_case(case_id, tier, seed, mode, **kw):
     return run_scaled(rec, seed, mode, **kw)
 
 
-def run_scaled(rec, seed, mode, base, T, win=None, unit='h', freq='h', level='A', wrap_win='same'):
+def run_scaled(rec, seed, mode, base, T, win=None, unit='h', freq='h', level='A', wrap_win='same', norm=2.0):
     eao = lift.import_eao()
     sigma = Sym.var('sigma') if mode == 'free' else None
 
     def build(D):
-        pf_s, pf_b, tg, prices, fixc, rng = build_scaled(D, mode, base, T, win, unit, freq, sigma, wrap_win)
+        pf_s, pf_b, tg, prices, fixc, rng = build_scaled(D, mode, base, T, win, unit, freq, sigma, wrap_win, norm)
         if mode == 'free':
             D.assume(sigma >= rng[0]); D.assume(sigma <= rng[1])
         ops = pf_s.setup_optim_problem(prices, tg)
@@ -225,7 +231,10 @@ def clip(w_in, w_out):
         return w_out
     if w_out is None:
         return w_in
-    return (max(w_in[0], w_out[0]), min(w_in[1], w_out[1]))
+    # a side given on both levels is intersected; a side given on neither stays open (a side given on one level only: KF-C08-structwin)
+    lo = None if w_in[0] is None and w_out[0] is None else max(w_in[0], w_out[0])
+    hi = None if w_in[1] is None and w_out[1] is None else min(w_in[1], w_out[1])
+    return (lo, hi)
 
 
 def build_struct(D, T, inner_win=None, outer_win=None, two_internal=False):
@@ -342,7 +351,7 @@ def observe(case, kwargs, env, rq):
                 o['disp_struct'] = obs.output_obs(eao.io.extract_output(sh.portf, ops, rs))['dispatch']
         return o
     sigma = float(env.get('sigma', 1.0)) if mode == 'free' else None
-    pf_s, pf_b, tg, prices, fixc, rng = build_scaled(D, mode, kw['base'], kw['T'], kw.get('win'), kw.get('unit', 'h'), kw.get('freq', 'h'), sigma, kw.get('wrap_win', 'same'))
+    pf_s, pf_b, tg, prices, fixc, rng = build_scaled(D, mode, kw['base'], kw['T'], kw.get('win'), kw.get('unit', 'h'), kw.get('freq', 'h'), sigma, kw.get('wrap_win', 'same'), kw.get('norm', 2.0))
     ops = pf_s.setup_optim_problem(prices, tg)
     opb = pf_b.setup_optim_problem(prices, tg)
     o = dict(scaled=obs.problem_obs(ops), base=obs.problem_obs(opb))
